@@ -316,6 +316,39 @@ func structuredSeeds(r *rand.Rand) []seed {
 	add("gen:text-bom32", cat([]byte{0xFF, 0xFE, 0, 0}, []byte("h\x00\x00\x00")))
 	add("gen:text-ctrl", []byte("abc\x01def"))
 	add("gen:empty", []byte{})
+	// declared-charset documents, well-formed and malformed (the sniffers run on every text/html, text/xml result)
+	frags := []string{"charset", "=", " ", "\"", "'", ";", "utf-8", "x", "text/html", "CHARSET", "\t", "charse", "encoding=", "encoding", "?", ">", "<"}
+	for i := 0; i < 40; i++ {
+		var fb strings.Builder
+		for k := 1 + r.Intn(8); k > 0; k-- {
+			fb.WriteString(frags[r.Intn(len(frags))])
+		}
+		f := fb.String()
+		add("gen:html-meta-frag", []byte("<html><head><meta http-equiv=\"Content-Type\" content=\""+strings.ReplaceAll(f, "\"", "")+"\"></head><body>x</body></html>"))
+		add("gen:html-meta-frag", []byte("<!DOCTYPE html><meta charset="+f+"><title>t</title>"))
+		add("gen:xml-decl-frag", []byte("<?xml version=\"1.0\" "+f+"?><a/>"))
+	}
+	add("gen:html-meta-noeq", []byte("<html><meta http-equiv=\"Content-Type\" content=\"text/html; charset utf-8\"></html>"))
+	add("gen:html-meta-noeq", []byte("<html><meta content=\"charset charset charset\" http-equiv=content-type></html>"))
+	// tar archives with several members, special names later
+	for _, second := range []string{"b.txt", "pkg/gpkg-1", "x/gpkg-1", "BM.bmp"} {
+		var tb bytes.Buffer
+		tw := tar.NewWriter(&tb)
+		for _, nm := range []string{"first-member.txt", second, "third"} {
+			body := randText(r, 20)
+			tw.WriteHeader(&tar.Header{Name: nm, Mode: 0o644, Size: int64(len(body)), Typeflag: tar.TypeReg, Format: tar.FormatUSTAR})
+			tw.Write(body)
+		}
+		tw.Close()
+		add("gen:tar-multi", tb.Bytes())
+	}
+	for _, first := range []string{"BMW-manual.txt", "ID3-notes.txt", "GIF89a-sample", "MThd.bin", "%PDF-like.txt", "PK\x03\x04name"} {
+		add("gen:tar-magic-name", mkTar(r, tar.FormatUSTAR, first, randText(r, 30)))
+	}
+	// OOXML packages that also carry JAR / APK marker names
+	add("gen:docx+jar", mkZip([]zipEntry{ct, {"_rels/.rels", randText(r, 40), false}, {"META-INF/MANIFEST.MF", []byte("Manifest-Version: 1.0\n"), false}, {"word/document.xml", randText(r, 80), true}}))
+	add("gen:xlsx+jar", mkZip([]zipEntry{ct, {"META-INF/MANIFEST.MF", []byte("Manifest-Version: 1.0\n"), false}, {"xl/workbook.xml", randText(r, 80), false}}))
+	add("gen:pptx+apk", mkZip([]zipEntry{ct, {"_rels/.rels", randText(r, 40), false}, {"docProps/app.xml", randText(r, 40), false}, {"ppt/presentation.xml", randText(r, 80), true}, {"resources.arsc", randBytes(r, 40), false}}))
 	add("gen:marc", cat([]byte("00714cam a2200205 a 4500"), []byte("001001300000"), []byte{0x1E}, randText(r, 30)))
 	add("gen:ttf-ace", cat([]byte{0, 1, 0, 0}, []byte("Standard ACE DB"), randBytes(r, 10)))
 	add("gen:ttf-jet", cat([]byte{0, 1, 0, 0}, []byte("Standard Jet DB"), randBytes(r, 10)))
